@@ -19,7 +19,9 @@ DELTA = 1e-12
 RULE = ("subsample: the same count object depleted in place between 2-4 calls must be honoured at every call; count vectors (length 1..12, entries 0..30, zeros included) x every kind of n in 0..total (+ n > total must "
         "raise), NumPy seed generated: indices sorted & unique, counts > 0, sum == n, count_i <= original_i; uniformity: for a "
         "small generated vector, M = 20000 seeded draws, per category the sample means of X_i and X_i^2 against the "
-        "multivariate-hypergeometric moments with Hoeffding bounds at delta = 1e-12 per comparison. downsample: lists / arrays / "
+        "multivariate-hypergeometric moments with Hoeffding bounds at delta = 1e-12 per comparison; sparse draws (150-1,000 items in "
+        "2-1,000 categories, n from 1 to T/20, M = 2500): the number of drawn items in each of up to five category prefixes against the "
+        "hypergeometric mean and second moment, same bounds. downsample: lists / arrays / "
         "Series / tables x maxseqs in {None, 0..N+3}: identity (same object) when len <= maxseqs or None, else exactly maxseqs "
         "elements forming a sub-multiset (tables: distinct original rows, unchanged). powerlaw_sample: size 0..10^5, integer "
         "xmin 1..50, alpha in (1, 6]: length, integer-valued, >= xmin, never NaN, and P(X=x) for x = xmin..xmin+4 against the "
